@@ -1,6 +1,7 @@
 import Model.Emit
 import Model.EmitQuote
 import Model.EmitFuse
+import Model.EmitCtx
 import Generated.C16CompileNodes
 import Drivers.Common
 /-! `vm_c16`: line protocol over `Model.Emit`, instantiated with the regenerated tables
@@ -28,6 +29,10 @@ fused comparison (`Model.EmitFuse`; operand kinds int <i> · half <twice> · tru
   cmp <kind> <arg> <n>  → lt · eq · gt · un         `data.LooseCompare(v, IntValue n)`
   fuse <kind> <arg> <n> → lt=<0|1> le=<0|1> fused=<0|1> rewritten=<0|1>
                           `$v < n`, `$v <= n`, VarIntLe{Lit: n}, and `$v < n` emitted as `$v <= n-1`
+
+per-file state (`Model.EmitCtx`; names with `\\` between the segments, `-` = empty):
+  ctx <type>                      → the per-file generator fields the handler of <type> prints (comma separated) · -
+  resolve <defined,…> <ns> <name> → some <full name> · none      `CallLater.GetValue` over the function table <defined,…>
 -/
 open Model.Emit
 
@@ -146,6 +151,22 @@ def fuseCase (what kind arg n : String) : String :=
       " fused=" ++ b01 (evalVarIntLe looseReal v n) ++ " rewritten=" ++ b01 (evalLtRewritten looseReal v n)
   | _, _ => "bad-request"
 
+def nameOf (s : String) : Model.EmitCtx.Name :=
+  if s == "-" || s == "" then [] else s.splitOn "\\"
+
+def nameStr (n : Model.EmitCtx.Name) : String := join "\\" n
+
+def resolveCase (defs ns q : String) : String :=
+  let table : List Model.EmitCtx.Name := if defs == "-" then [] else (defs.splitOn ",").map nameOf
+  match Model.EmitCtx.resolve (fun n => table.contains n) (nameOf ns) (nameOf q) with
+  | some n => "some " ++ nameStr n
+  | none => "none"
+
+def ctxStr (ty : String) : String :=
+  match Model.EmitCtx.emittedCtx Generated.C16CompileNodes.ctxReads ty with
+  | [] => "-"
+  | fs => join "," fs
+
 def handle (line : String) : String :=
   match line.splitOn " " with
   | ["cmp", k, a, n] => fuseCase "cmp" k a n
@@ -163,6 +184,8 @@ def handle (line : String) : String :=
         "ok " ++ bytesToHex t ++ " " ++ (match Model.EmitQuote.readInt t with | some j => toString j | none => "none")
       | none => "bad-request"
   | ["float", c] => floatCase c
+  | ["ctx", ty] => ctxStr ty
+  | ["resolve", defs, ns, q] => resolveCase defs ns q
   | ["path", ty] => pathStr ty
   | ["emit", ty, hn] => emitStr ty (hn == "1") []
   | ["emit", ty, hn, fs] => emitStr ty (hn == "1") (if fs == "" then [] else fs.splitOn ",")
